@@ -13,6 +13,7 @@ TRUSTED = [
 ]
 RULE = ("all 9 toggle pairs x section outcomes {valid, silent, malformed, challenge-then-silent} for each section x check_app_id on/off over server states whose "
         "app id is the main id, the dedicated id, another id, or unconstrained (extracted Spec generator); exhaustive over the matrix for each state; "
+        "Valve games of the definitions table (those whose definition switches the app-id check off, and others) through the generic entry point with extra request settings, every field independently unset / set, against a server of the game and one of another game; "
         "non-trivial = some section is not valid, skipped, or the app id is rejected; distinct by case bytes")
 OUTCOMES = ["valid", "silent", "malformed", "chsilent"]
 
@@ -99,7 +100,60 @@ def gen_cases(tier, rng):
                 want = fail or ("Ok(" + exp[(1 if pres_p else 0, 1 if pres_m else 0)]["expected"] + ")")
                 cases.append({"id": "u2tog/%d/%d%d/%s/%s" % (seed, tp, tm, op, om), "hex": u2_case(7778, (tp, tm), None, script),
                               "meta": {"stream": "unreal2-toggles", "expected": want, "tp": tp, "tr": tm, "op": op, "orr": om, "check": True, "badgame": False, "unreal2": True}})
+    cases += extra_settings_rows(tier, rng)
     return cases
+
+
+def generic_extra_case(gid, port, extra, events):
+    """family 34: games::query::query_with_timeout_and_extra_settings(game, ip, port, None, extra)"""
+    g = gid.encode()
+    out = bytes([34]) + len(g).to_bytes(2, "big") + g + (b"\x00" if port is None else b"\x01" + port.to_bytes(2, "big"))
+    if extra is None:
+        out += b"\x00"
+    else:
+        out += b"\x01"
+        for k in ("players", "rules"):
+            out += b"\x00" if extra[k] is None else bytes([1, extra[k]])
+        out += b"\x00" if extra["check"] is None else bytes([1, 1 if extra["check"] else 0])
+        out += b"\x00\x00"
+    return (out + enc_ts(None) + enc_events(events) + b"\x00\x00\x00" + b"\x00").hex()
+
+
+def extra_settings_rows(tier, rng):
+    """Valve games of the definitions table through the generic entry point with explicit extra request settings:
+    every field independently unset or set, against a server of the game and a server of another game.
+    An unset field means the protocol's default (players Try, rules Try, app id checked), whatever the definition says."""
+    import json as _json
+    from vlib import BUILD
+    games = {g["id"]: g for g in _json.load(open(BUILD + "/gen/games.json"))}
+    ids = [i for i in ("starbound", "armareforger", "teamfortress2", "garrysmod", "rust") if i in games]
+    if tier != "quick":
+        more = [g["id"] for g in games.values() if isinstance(g["protocol"], dict) and "Valve" in g["protocol"]
+                and "Source" in g["protocol"]["Valve"] and g["protocol"]["Valve"]["Source"] and g["protocol"]["Valve"]["Source"][0] not in (240, 2400, 632360)]
+        r0 = rng.fork("xsgames")
+        ids += [more[r0.below(len(more))] for _ in range(20)]
+    combos = [(p, r, c) for p in (None, 0, 1, 2) for r in (None, 1, 2) for c in (None, True, False)]
+    if tier == "quick":
+        combos = [x for x in combos if x[0] in (None, 2) and x[1] in (None, 1)]
+    req, idx = [], []
+    for gid in ids:
+        app = games[gid]["protocol"]["Valve"]["Source"]
+        for server in ("own", "foreign"):
+            eng = b"\x01" + (app[0] if server == "own" else 999983).to_bytes(4, "big")
+            for ci, (p, r, c) in enumerate(combos):
+                eff = (1 if p is None else p, 1 if r is None else r, True if c is None else c)
+                seed = rng.fork("xs/%s/%s/%d" % (gid, server, ci)).next() % (1 << 48)
+                req.append((bytes([114]) + seed.to_bytes(8, "big") + eng + bytes([eff[0], eff[1], 1 if eff[2] else 0])).hex())
+                idx.append((gid, server, (p, r, c), eff))
+    out = []
+    for (gid, server, (p, r, c), eff), o in zip(idx, run_model(req)):
+        if not o or "BADCASE" in o:
+            continue
+        evs = [bytes.fromhex(x) for x in o.split(",")]
+        out.append({"id": "xs/%s/%s/%s-%s-%s" % (gid, server, p, r, c), "hex": generic_extra_case(gid, None, {"players": p, "rules": r, "check": c}, evs),
+                    "meta": {"stream": "generic-extra-settings", "game": gid, "server": server, "extra": [p, r, c], "check": eff[2], "tp": eff[0], "tr": eff[1],
+                             "op": "valid", "orr": "valid", "badgame": server == "foreign" and eff[2]}})
+    return out
 
 
 def oracle(case, impl, side):
@@ -107,6 +161,16 @@ def oracle(case, impl, side):
     m = case["meta"]
     if "PANIC" in (res or "") or res == "ABORT":
         return ("panic", "panicked: " + side[:200])
+    if m["stream"] == "generic-extra-settings":
+        if m["server"] == "foreign" and m["check"] and res != "Err(BadGame)":
+            return ("extra-settings:app-id-not-checked", "game %s with extra settings %s (app id check %s) against a server of another game: got %s, expected Err(BadGame)"
+                    % (m["game"], m["extra"], "unset = on" if m["extra"][2] is None else "on", (res or "")[:160]))
+        if not m["check"] and res == "Err(BadGame)":
+            return ("extra-settings:app-id-rejected", "game %s with extra settings %s (app id check off) against a %s server: rejected with BadGame" % (m["game"], m["extra"], m["server"]))
+        sent = [t.split(":", 1)[1][8:10] for t in (trace or "").split(";") if t.startswith("S")]
+        if m["tp"] == 0 and "55" in sent:
+            return ("skip-requested", "players set to Skip but an A2S_PLAYER request was sent")
+        return None
     if res != m["expected"]:
         return ("toggle-result", "toggles p=%d r=%d check=%s outcomes %s/%s: got %s expected %s" % (m["tp"], m["tr"], m["check"], m["op"], m["orr"], res[:200], m["expected"][:200]))
     if m.get("unreal2"):
